@@ -21,7 +21,8 @@ Theorem C17_side_shape :
   trace_index_offset_minus_one = true /\ store_prefers_error_ip = true /\
   unhandled_names_instance_class = true /\ error_at_uses_token_line = true /\
   emit_byte_uses_previous_line = true /\
-  dispatch_errors_go_through_handlers = true.
+  dispatch_errors_go_through_handlers = true /\
+  line_types_wide = true.
 Proof. repeat split; reflexivity. Qed.
 (* a catch clause clears the error position, or every way of raising an exception overwrites it *)
 Theorem C17_side_clear : clear_on_catch fl = true \/ records_all fl = true.
